@@ -58,8 +58,9 @@ CHECKS = {
         "the emitted WebAssembly validates, the emitted TypeScript is syntactically valid, and both runs end in an allowed way (return, panic "
         "with a non-empty message, Vec bounds, stack exhaustion, arithmetic trap) — never in an engine type fault nor in the empty-message panic "
         "of an unhandled match. Programs: the repository's tests, seeded type-directed generated programs over six profiles, a hand-written feature "
-        "corpus (corpus/c03), single-token mutants the checker accepts, and every program with one match arm deleted (rejected, or the remaining arms "
-        "must cover what reaches the match). Rule level: TypeRules.tla — a typing judgment and an evaluator for a core fragment (generic calls with "
+        "corpus (corpus/c03), single-token mutants the checker accepts, every program with one match arm deleted (rejected, or the remaining arms "
+        "must cover what reaches the match), and hand-written near misses one type error away from an accepted program (the class itself for an "
+        "instance, same-named classes of two modules: rejected, or they must not go wrong). Rule level: TypeRules.tla — a typing judgment and an evaluator for a core fragment (generic calls with "
         "hint flow, lambdas, tuples, struct fields, enum match); TLC checks type soundness (a typed term never gets stuck) on every term up to a size "
         "bound, and every enumerated well-typed term is compiled and run: it must validate and print the value the specification computes.",
    note="Programs are sampled (generator + repository corpus); 'valid TypeScript' = type eraser accepts + node --check; trap classification by own WasmGC interpreter.",
@@ -134,7 +135,7 @@ CHECKS = {
         "accepted) over chains of up to 3; the harness applies the rewrites textually from AST locations to accepted and rejected programs, confirms "
         "structurally that exactly the intended edit happened, compiles and runs original and rewritten programs on both back ends, and RewritesTrace.tla "
         "(extending Observations.tla's notion of implementation-defined runs) checks the action property between consecutive steps of every recorded history.",
-   note="Instances are sampled uniformly over kinds and sites; invalid instances (validity check fails) are discarded and counted, never judged.",
+   note="Instances are sampled uniformly over kinds and sites; invalid instances (validity check fails) are discarded and counted, never judged — except that a rewritten text which parses and on which the checker crashes is a verdict change and is reported.",
    technique="TLA+ action-property spec + recorded rewrite histories of real programs validated by TLC"),
  "C14": dict(
    level="model_checking", design="§5 C14, §10",
@@ -152,8 +153,8 @@ CHECKS = {
         "enumerates the document space (0-3 imports, with/without `;`, comments and blank lines between, five layouts) and checks the model's own theorems. "
         "For every enumerated document (and documents reached through seeded update histories) the real code_actions and completion additional_edits are "
         "recorded; EditsTrace.tla decides that ranges are inside the document and disjoint, the applied text parses without new syntax errors, the class is "
-        "imported from the named module and no longer unresolved, and every other import and toplevel is unchanged.",
-   note="Documents are ASCII; comment re-attachment after the edit is counted but not judged (the property compares programs up to comments).",
+        "imported from the named module and no longer unresolved, every other import and toplevel is unchanged and keeps its comments, and completion items for names the document declares itself carry no edit.",
+   note="Documents are ASCII; comments of import lines may move with the sorted imports (not judged); the comments of classes and interfaces must stay with them (a doc comment is what hover shows).",
    technique="TLA+ edit/document model enumerated by TLC; every case replayed on the real server and judged by a TLA+ trace spec"),
  "C01": dict(
    level="translation_validation", design="§3.4, §5 C01, §10",
